@@ -905,6 +905,18 @@ def build_np():
             raise Unsupported("np.putmask on a masked array")  # writes the data only, the mask is left alone
         a[mask] = values
 
+    def np_nonzero(a):
+        if isinstance(a, (Arr, MArr)):
+            return a.nonzero()
+        raise Unsupported("np.nonzero(%r)" % (type(a),))
+
+    def np_ravel(a):
+        if isinstance(a, (Arr, MArr)):
+            return a.ravel()
+        raise Unsupported("np.ravel(%r)" % (type(a),))
+
+    np.nonzero = np_nonzero
+    np.ravel = np_ravel
     np.reshape = np_reshape
     np.flatnonzero = np_flatnonzero
     np.putmask = np_putmask
